@@ -16,7 +16,7 @@ ASSUMPTIONS = [
     "message types are integers in [0, 40]; 2 senders, 2 destinations (one registered late)",
     "time.sleep rebound to a no-op in pydcop.infrastructure.agents / communication (timing is not observed)",
 ]
-BOUNDS = {"quick": "(A) histories of <= 4 operations over 6 operation kinds; histories of <= 8 operations {post, single hand-over} between one sender and one destination with one symbolic type, (B) <= 3 posts, (D) <= 2 posts over <= 2 polls before the shutdown", "thorough": "(A) histories of <= 5 operations, (B) <= 4 posts, (D) <= 3 posts over <= 3 polls"}
+BOUNDS = {"quick": "(A) histories of <= 4 operations over 6 operation kinds; histories of <= 8 operations {post, single hand-over} between one sender and one destination with one symbolic type, (B) <= 3 posts, (D) <= 2 posts over <= 2 polls before the shutdown, (E) <= 2 messages waiting for a computation added to the running agent", "thorough": "(A) histories of <= 5 operations, (B) <= 4 posts, (D) <= 3 posts over <= 3 polls, (E) <= 3 waiting messages"}
 OUTSIDE = "thread interleavings inside post_msg/next_msg, the HTTP transport, remote destinations"
 CAP_S = {"quick": 900, "thorough": 7200}
 
@@ -35,6 +35,9 @@ def jobs(tier):
             {"name": "agent-clean-shutdown", "kind": "B", "posts": 3 if tier == "quick" else 4},
             # the agent loop is already running (it may have polled an empty queue) when another thread posts and then asks
             # for the clean shutdown: the other thread acts between two polls of the loop
+            # a computation is added to a running agent while messages for it are waiting: the agent's thread may handle
+            # the re-queued messages as soon as the registration has been announced
+            {"name": "agent-late-add", "kind": "E", "posts": 2 if tier == "quick" else 3},
             {"name": "agent-running-shutdown", "kind": "D", "posts": 2 if tier == "quick" else 3, "polls": 2 if tier == "quick" else 3}]
 
 
@@ -61,6 +64,8 @@ def run(eng, p):
         return run_two_late(eng, p)
     if p["kind"] == "D":
         return run_agent_running(eng, p)
+    if p["kind"] == "E":
+        return run_agent_late_add(eng, p)
     return run_agent(eng, p)
 
 
@@ -303,3 +308,65 @@ def run_agent_running(eng, p):
             if e:
                 remaining.remove(e[0])
                 _check_pop(eng, e[0], remaining, "agent loop handled messages against priority / per-sender FIFO order")
+
+
+def run_agent_late_add(eng, p):
+    """Messages wait for a computation that is then added to the (running) agent; the agent thread is given the chance to
+    handle messages at the point where add_computation announces the registration."""
+    from pydcop.infrastructure.agents import Agent
+    from pydcop.infrastructure.communication import InProcessCommunicationLayer
+    from pydcop.infrastructure.computations import MessagePassingComputation, Message, register
+    log = []
+
+    class Probe(MessagePassingComputation):
+        @register("tok")
+        def _h(self, s, msg, t):
+            log.append(("handle", msg.content))
+    agent = Agent("a1", InProcessCommunicationLayer())
+    c0 = Probe("c0")
+    agent.add_computation(c0)
+    c0.start()
+    agent.run_computations = False
+    messaging = agent._messaging
+    n = eng.choose(p["posts"], "n_posts") + 1
+    posted = []
+    try:
+        for i in range(n):
+            t = eng.sym_int("type_%d" % i, 0, 40)
+            messaging.post_msg("c0", "c2", Message("tok", i), t)
+            posted.append(("c0", "c2", i, t))
+            log.append(("post", posted[-1]))
+
+        def loop_step():
+            full, t = messaging.next_msg(0)
+            if full is not None:
+                sender, dest, msg, _ = full
+                agent._handle_message(sender, dest, msg, t)
+        real_reg = agent.discovery.register_computation
+
+        def reg(*a, **k):
+            r = real_reg(*a, **k)
+            for _ in range(eng.choose(n + 1, "agent_thread_steps_during_add")):
+                loop_step()
+            return r
+        agent.discovery.register_computation = reg
+        late = Probe("c2")
+        late.start()        # already started: a hand-over is a handler call (holding before start is C19's subject)
+        agent.add_computation(late)
+        agent.discovery.register_computation = real_reg
+        agent.clean_shutdown()
+        agent._run()
+    except Exception as e:
+        eng.notes["outcome"] = {"log": str(log), "exc": str(e)}
+        eng.fail("exception %s: %s" % (type(e).__name__, e), detail=traceback.format_exc(limit=-4))
+        return
+    handled = [v for k, v in log if k == "handle"]
+    eng.notes["outcome"] = {"handled": handled, "posted": n}
+    eng.prove(sorted(handled) == list(range(n)), "messages kept for a late computation were not all handled exactly once",
+              detail=str(eng.notes["outcome"]))
+    remaining = list(posted)
+    for v in handled:
+        e = [x for x in remaining if x[2] == v]
+        if e:
+            remaining.remove(e[0])
+            _check_pop(eng, e[0], remaining, "messages kept for a late computation were handled against priority / posting order")
